@@ -228,6 +228,25 @@ func (a *Asm) Metadata(r *run.Rng) {
 					c.Nat(uint32(64+(i/2)*8), 1)
 				}
 			}
+		case 3:
+			// special boxes: all zero (1-byte 64 = 0, or 4-byte +-0), the default box stored explicitly
+			if r.Bool() {
+				for i := 0; i < 4; i++ {
+					switch r.Intn(3) {
+					case 0:
+						c.Nat(64, 1)
+					case 1:
+						c.Nat(0, 4)
+					default:
+						c.Nat(f4(float32(math.Copysign(0, -1))), 4)
+					}
+				}
+			} else {
+				c.Nat(32, 1)
+				c.Nat(32, 1)
+				c.Nat(96, 1)
+				c.Nat(96, 1)
+			}
 		case 2:
 			// degenerate: min == max
 			x, y := r.Intn(100), r.Intn(100)
